@@ -15,7 +15,7 @@ using verif::sfmt;
 namespace {
 
 // ---------------------------------------------------------------- arena with residue-selected slots
-const size_t SLOT = 512, NRES = 73, DEPTH = 24, NSLOTS = NRES * DEPTH;
+const size_t SLOT = 4608, NRES = 73, DEPTH = 24, NSLOTS = NRES * DEPTH;   // gcd(4608, 73) = 1: every residue class has DEPTH slots
 char* g_arena_raw; char* g_arena;
 std::vector<int> g_by_res[NRES];
 bool g_used[NSLOTS]; size_t g_slot_size[NSLOTS];
@@ -27,7 +27,7 @@ void* arena_alloc(size_t size) {
     if (size > SLOT) return NULLPTR;
     for (unsigned d = 0; d < NRES; d++) {
         unsigned res = (g_next_residue + d) % NRES;
-        for (int k : g_by_res[res]) if (!g_used[k]) { g_used[k] = true; g_slot_size[k] = size; memset(g_arena + k * SLOT, 0xAA, SLOT); return g_arena + k * SLOT; }
+        for (int k : g_by_res[res]) if (!g_used[k]) { g_used[k] = true; g_slot_size[k] = size; memset(g_arena + k * SLOT, 0xAA, size < 400 ? 512 : SLOT); return g_arena + k * SLOT; }
     }
     return NULLPTR;
 }
@@ -116,7 +116,7 @@ int run_case(Reader& r, bool& nontrivial, std::string& desc) {
         int calls_before = rep.calls;
         int expect_calls = 0;
         if (k < 34 || live.empty()) {                                  // ---- alloc
-            int kind = (int)r.below(3); size_t size = r.below(4) == 0 ? r.below(301) : r.below(24);
+            int kind = (int)r.below(3); size_t size = r.below(4) == 0 ? (r.below(8) == 0 ? r.below(4001) : r.below(301)) : r.below(24);
             int file = (int)r.below(4), line = (int)r.below(1000); bool separate = r.flag();
             g_next_residue = r.below(3) ? r.below(4) : r.below(73);   // mostly a few buckets: long chains
             char* p = det->allocMemory(g_allocs[kind], size, FILES[file], (size_t)line, separate);
@@ -134,7 +134,7 @@ int run_case(Reader& r, bool& nontrivial, std::string& desc) {
             forget(p); released.push_back(p); verif::cls("free");
         } else if (k < 64) {                                           // ---- realloc (malloc family as the real entry point; any live block here)
             char* p = live[r.below((uint32_t)live.size())]; Rec rec = model[p];
-            size_t nsize = r.below(4) == 0 ? r.below(301) : r.below(24); int file = (int)r.below(4), line = (int)r.below(1000);
+            size_t nsize = r.below(4) == 0 ? (r.below(8) == 0 ? r.below(4001) : r.below(301)) : r.below(24); int file = (int)r.below(4), line = (int)r.below(1000);
             g_realloc_inplace = r.flag(); g_next_residue = r.below(3) ? r.below(4) : r.below(73);
             what = sfmt("realloc(#%u,%zu,%s)", rec.number, nsize, g_realloc_inplace ? "inplace" : "move");
             char* q = det->reallocMemory(g_allocs[rec.kind], p, nsize, FILES[file], (size_t)line, rec.separate);
